@@ -18,6 +18,6 @@ go build ./... >/tmp/seedc.$$ 2>&1 || res false "does not build"
 timeout 600 go test -vet=off -count=1 -run 'Seed' ./$PKG/ >/tmp/seedc.$$ 2>&1 && res false "demo passes with the change"
 rm $PKG/zz_seed_demo_test.go
 FAILS=$(timeout 1500 go test -vet=off -count=1 ./... 2>&1 | grep -- '^--- FAIL' | awk '{print $3}' | sort | tr '\n' ' ')
-for f in $FAILS; do case $f in TestNewClient|TestStatsd_BadSnapshot|TestStatsd_Configure|TestJoin|TestTimeout) ;; *) res false "existing test fails with the change: $f";; esac; done
+for f in $FAILS; do case $f in TestNewClient|TestStatsd_BadSnapshot|TestStatsd_Configure|TestJoin|TestTimeout|TestRandom) ;; *) res false "existing test fails with the change: $f";; esac; done
 rm -f /tmp/seedc.$$
 res true "confirmed: applies, builds, suite baseline-only failures ($FAILS), demo fails with and passes without"
